@@ -1,6 +1,6 @@
 """C05/C07: default SimplePolicy values (per network), weight/dust constants, safe commitment types,
-on-chain validator depth, default PolicyFilter rules, and the *shape* of estimate_feerate_per_kw
-(saturating, clamped) -- everything the policy model takes from declarations in the source."""
+on-chain validator depth, default PolicyFilter rules, and the *shape* of validate_fee
+(exact u128 rate against both bounds) -- everything the policy model takes from declarations in the source."""
 import re
 from rustsrc import read, strip_comments, body_after, const_value, int_expr, ExtractError
 
@@ -102,13 +102,17 @@ def extract(repo):
         raise ExtractError("mutual_close_tx_weight: unexpected formula")
     max_cltv = int_expr(const_value(pm, "MAX_CLTV_EXPIRY"))
 
-    # estimate_feerate_per_kw: the model is the saturating/clamping version; fail closed if the
-    # source is anything else (e.g. the `as u32` truncation came back).
-    ebody = " ".join(body_after(tu, r"fn\s+estimate_feerate_per_kw\s*\(").split())
-    want = ("let feerate = total_fee.saturating_mul(1000).saturating_add(999) / weight; "
-            "u32::try_from(feerate).unwrap_or(u32::MAX)")
-    if ebody != want:
-        raise ExtractError("estimate_feerate_per_kw: body differs from the modelled saturating form: " + ebody)
+    # validate_fee (fix 3751e9c): the model compares the exact u128 rate against both bounds; fail closed
+    # if the source computes or compares anything else (e.g. the u32 estimate / truncation came back).
+    fbody = " ".join(body_after(sv, r"fn\s+validate_fee\s*\(").split())
+    for want in ("let fee = sum_inputs.checked_sub(sum_outputs)",
+                 "let feerate_perkw: u128 = (fee as u128 * 1000 + 999) / weight as u128;",
+                 "if feerate_perkw < self.policy.min_feerate_per_kw as u128 {",
+                 "if feerate_perkw > self.policy.max_feerate_per_kw as u128 {"):
+        if want not in fbody:
+            raise ExtractError("validate_fee: expected `" + want + "` (the modelled exact-rate comparison)")
+    if "estimate_feerate_per_kw" in fbody:
+        raise ExtractError("validate_fee: uses estimate_feerate_per_kw again; the model compares the exact rate")
 
     # safe commitment types
     sm = re.search(r"const\s+SAFE_COMMITMENT_TYPE\s*:\s*&\[CommitmentType\]\s*=\s*&\[(.*?)\]\s*;", sv, re.S)
@@ -159,10 +163,10 @@ def extract(repo):
              "COMMITMENT_TX_BASE_WEIGHT": base_w, "COMMITMENT_TX_BASE_ANCHOR_WEIGHT": anchor_w,
              "COMMITMENT_TX_WEIGHT_PER_HTLC": per_htlc_w, "EXPECTED_MUTUAL_CLOSE_WITNESS_WEIGHT": close_wit_w,
              "MAX_CLTV_EXPIRY": max_cltv, "min_funding_depth": min_funding_depth,
-             "SAFE_COMMITMENT_TYPE": safe, "estimate_feerate_per_kw": "saturating_mul/saturating_add, clamped to u32::MAX"}
+             "SAFE_COMMITMENT_TYPE": safe, "validate_fee": "exact rate (fee as u128 * 1000 + 999) / weight compared against min/max as u128"}
     obl = ["Gen.Policy: the default filter maps every C05/C07 tag to Error (examples default_filter_nonpermissive in Props/C05, Props/C07)",
-           "Gen.Policy: weights are positive (theorem C05_gen_weights_pos), so estimate_feerate_per_kw never divides by zero",
-           "estimate_feerate_per_kw has the modelled saturating form (translator fails closed otherwise)"]
+           "Gen.Policy: weights are positive (theorem C05_gen_weights_pos), so validate_fee never divides by zero",
+           "validate_fee has the modelled exact-rate comparison (translator fails closed otherwise)"]
     return {"Policy.lean": lean}, {"C05": {"facts": facts, "obligations": obl},
                                    "C07": {"facts": {k: facts[k] for k in ("default_policy_mainnet", "default_policy_testnet", "default_filter_downgraded_tags", "EXPECTED_MUTUAL_CLOSE_WITNESS_WEIGHT")},
                                            "obligations": obl[:1]}}
